@@ -31,11 +31,13 @@
 (* half-integer points inside the support, points with ONE coordinate      *)
 (* below / above it, points with all coordinates outside, points with one  *)
 (* coordinate exactly ON the boundary and all-boundary points.  The        *)
-(* documented supports of Gamma, InverseGamma, Beta, Lognormal and         *)
-(* ModifiedHalfNormal are open: a boundary point is outside (non-finite).  *)
-(* Uniform: the documented density is constant on the box and the closure  *)
-(* is a set of measure zero - at its boundary nothing is asserted          *)
-(* (`asserted` = FALSE: observed only).                                    *)
+(* boundary of a support is a set of measure zero: whether it belongs to   *)
+(* the support (Gamma with shape 1 has a finite density at 0, the Uniform  *)
+(* box is closed in the implementation) is a convention that is NOT        *)
+(* asserted (`asserted` = FALSE).  What IS stated there is the third       *)
+(* conjunct of ContainerIndependent alone: whatever the object answers for *)
+(* the reference container - a finite vector or a non-finite one - it      *)
+(* answers for every admissible container.                                 *)
 (*   ProbeNaNOutside   the probe case's NaN flag / -inf flag = complement  *)
 (*                     of the (strict) support; tags are what they say     *)
 (*   ProbeCover        per bounded family and dimension: an integer-valued *)
@@ -92,7 +94,6 @@ AnswerIn(t, cs) ==
 \* ---------------------------------------------------------------------------
 PbFams == {"Gamma", "InverseGamma", "Beta", "Uniform", "Lognormal", "ModifiedHalfNormal"}
 UpperBounded == {"Beta", "Uniform"}
-OpenSupport  == PbFams \ {"Uniform"}          \* documented support open: the boundary is outside
 
 Ramp(d)     == F([i \in 1..d |-> R(i)])                                 \* 1, 2, 3
 HalfRamp(d) == F([i \in 1..d |-> IF i % 2 = 1 THEN Half ELSE Q(3, 2)])  \* 1/2, 3/2, 1/2
@@ -115,14 +116,18 @@ BoxProbes(d) ==
        Pt(F([i \in 1..d |-> IF i % 2 = 1 THEN Zero ELSE One]), "boundary") >>
 NProbes(fam) == IF fam \in UpperBounded THEN 9 ELSE 8
 
-\* parameter patterns of the probe configurations (indices into the lattices of module Families)
+\* parameter patterns of the probe configurations (indices into the lattices of module Families): two per family (thorough:
+\* their product)
+PbPairs(A, B) == IF Thorough THEN A \X B ELSE {<<A_B[1], A_B[2]>> : A_B \in {<<CHOOSE x \in A : \A y \in A : x <= y, CHOOSE x \in B : \A y \in B : x <= y>>,
+                                                                              <<CHOOSE x \in A : \A y \in A : y <= x, CHOOSE x \in B : \A y \in B : y <= x>>}}
 PbConfigs(fam) ==
-    CASE fam = "Gamma" -> UNION {{ Cfg(fam, d, a, b, 1, x, 0) : a \in {1, 2}, b \in {1, 3}, x \in 1..NProbes(fam) } : d \in Dims}
-      [] fam = "InverseGamma" -> UNION {{ Cfg(fam, d, a, b, g, x, 0) : a \in {2}, b \in {1, 2}, g \in {1, 3}, x \in 1..NProbes(fam) } : d \in Dims}
-      [] fam = "Beta" -> UNION {{ Cfg(fam, d, a, b, 1, x, 0) : a \in {2, 3}, b \in {1, 2}, x \in 1..NProbes(fam) } : d \in Dims}
-      \* Uniform: low in {0, 1} (constant), width in {1, 4} (constant): width 4 has integer-valued inside points
-      [] fam = "Uniform" -> UNION {{ Cfg(fam, d, a, b, 1, x, 0) : a \in {1, 2}, b \in {1, 3}, x \in 1..NProbes(fam) } : d \in Dims}
-      [] fam = "Lognormal" -> UNION {{ Cfg(fam, d, a, b, g, x, 0) : a \in {1, 2}, b \in 1..NUT(d), g \in {1}, x \in 1..NProbes(fam) } : d \in Dims}
+    CASE fam = "Gamma" -> UNION {{ Cfg(fam, d, ab[1], ab[2], 1, x, 0) : ab \in PbPairs({1, 2}, {1, 3}), x \in 1..NProbes(fam) } : d \in Dims}
+      [] fam = "InverseGamma" -> UNION {{ Cfg(fam, d, 2, bg[1], bg[2], x, 0) : bg \in PbPairs({1, 2}, {1, 3}), x \in 1..NProbes(fam) } : d \in Dims}
+      [] fam = "Beta" -> UNION {{ Cfg(fam, d, ab[1], ab[2], 1, x, 0) : ab \in PbPairs({2, 3}, {1, 2}), x \in 1..NProbes(fam) } : d \in Dims}
+      \* Uniform: low in {0, 1} (constant), width in {4, 1} (constant): width 4 has integer-valued inside points
+      [] fam = "Uniform" -> UNION {{ Cfg(fam, d, ab[1], ab[2], 1, x, 0) : ab \in (IF Thorough THEN {1, 2} \X {1, 3} ELSE {<<1, 3>>, <<2, 1>>}),
+                                                                         x \in 1..NProbes(fam) } : d \in Dims}
+      [] fam = "Lognormal" -> UNION {{ Cfg(fam, d, ab[1], ab[2], 1, x, 0) : ab \in PbPairs({1, 2}, 1..NUT(d)), x \in 1..NProbes(fam) } : d \in Dims}
       \* ModifiedHalfNormal: alpha = beta = gamma (1, 1, 1) and (2, 2, 2) - the instances on which finding C03-F3 is invisible -
       \* and one with distinct parameters (outside / boundary answers do not depend on the parameters)
       [] fam = "ModifiedHalfNormal" -> { Cfg(fam, 1, abg[1], abg[2], abg[3], x, 0) : abg \in {<<1, 1, 2>>, <<2, 3, 4>>, <<3, 2, 1>>},
@@ -135,7 +140,7 @@ ProbeConfigs == UNION {PbConfigs(f) : f \in Fams \cap PbFams}
 PbBase(k, par, scal, p, inside, lp, grad, hasgrad) ==
     Base([k EXCEPT !.o = CASE p.tag = "in" -> 0 [] p.tag = "below" -> 1 [] p.tag = "above" -> 2 [] OTHER -> 3],
          par, scal, p.x, inside, lp, grad, hasgrad, NoCdf)
-      @@ [probe |-> k.x, tag |-> p.tag, asserted |-> (p.tag # "boundary" \/ k.fam \in OpenSupport),
+      @@ [probe |-> k.x, tag |-> p.tag, asserted |-> (p.tag # "boundary"),
           kinds |-> AdmissibleKinds(p.x)]
 
 ProbeGamma(k) ==
@@ -234,7 +239,7 @@ ProbeNaNOutside ==
     IN /\ cs.grad.nan = ~cs.inside /\ cs.logpdf.neginf = ~cs.inside
        /\ (cs.tag = "in" <=> cs.inside)
        /\ (cs.tag = "boundary" => ~cs.inside)                                \* strict support: the boundary is not inside
-       /\ (cs.asserted <=> (cs.tag # "boundary" \/ c.fam \in OpenSupport))
+       /\ (cs.asserted <=> cs.tag # "boundary")
        /\ Admissible(CtOf(RefKind), cs.x)
 
 \* per bounded family and dimension the probes reach every class of (support, number type) that exists
@@ -270,7 +275,7 @@ PbEmit ==
     Emit => /\ PrintT("@@CASE " \o ToJson(ProbeCase(c)) \o " @@END")
             /\ (c = (CHOOSE k \in ProbeConfigs : TRUE) =>
                   PrintT("@@CASE " \o ToJson([kind |-> "cttable", ref |-> RefKind, rows |-> CtTable,
-                                              open |-> OpenSupport, upper |-> UpperBounded]) \o " @@END"))
+                                              upper |-> UpperBounded]) \o " @@END"))
 
 PbInit == c \in ProbeConfigs
 PbNext == UNCHANGED c
